@@ -45,6 +45,15 @@ func c04Ops(h *HistGen) []J {
 		opLine("dropIndex", J{"coll": hx("f"), "field": hx("zz")}),
 		opLine("createCollectionByQuery", J{"coll": hx("new2"), "q": qCrit}),
 		opLine("createCollectionByQuery", J{"coll": hx("g"), "q": qCrit}),
+		opLine("import", J{"coll": hx("imp"), "raw": fmt.Sprintf("[{\"_id\":%q,\"a\":1},{\"_id\":%q,\"a\":\"s\"}]", fixedId(60), fixedId(61))}),
+		opLine("import", J{"coll": hx("f"), "raw": fmt.Sprintf("[{\"_id\":%q,\"a\":1}]", fixedId(62))}), // the collection exists (with documents and indexes)
+		opLine("import", J{"coll": hx("g"), "raw": fmt.Sprintf("[{\"_id\":%q,\"a\":1}]", fixedId(63))}), // the collection exists (empty)
+		opLine("import", J{"coll": hx("imp2"), "raw": fmt.Sprintf("[{\"_id\":%q,\"a\":1},{\"_id\":%q,\"a\":2}]", fixedId(64), fixedId(64))}), // duplicate inside the file
+		opLine("import", J{"coll": hx("imp3"), "raw": fmt.Sprintf("[{\"_id\":%q,\"a\":1},{\"_id\":\"nope\"}]", fixedId(65))}),             // malformed id at position 2
+		opLine("import", J{"coll": hx("imp4"), "raw": "[{\"a\":"}),                                                                        // ill-formed file
+		opLine("import", J{"coll": hx("imp5")}),                                                                                            // unreadable file
+		opLine("export", J{"coll": hx("f"), "file": "e1"}),
+		opLine("export", J{"coll": hx("nope"), "file": "e2"}),
 		opLine("findAll", J{"q": qCrit}),
 		opLine("findAll", J{"q": qSortIdx}),
 		opLine("findAll", J{"q": qSortLim}),
@@ -131,7 +140,7 @@ func streamC04(c *Ctx) {
 		"per faulted run: error reported (never success), raw dump unchanged, follow-up operation succeeds, outcome and fired flag equal to the Lean model's; fault-free store-call traces compared call by call. non-trivial = distinct (operation, state, k) where the fault fired"
 	dr := StartDriver(c.DriverBin)
 	defer dr.Close()
-	dm := Domain{IntsWithin2p53: true, NoNegTimes: true}
+	dm := Domain{IntsWithin2p53: true, NoNegTimes: true, JSONSafe: true} // JSONSafe: the export operation writes JSON (invalid UTF-8 is outside C19's domain)
 	backends := []string{"bbolt"}
 	if !c.Quick() {
 		backends = backendsAll
@@ -141,6 +150,16 @@ func streamC04(c *Ctx) {
 			return
 		}
 	}
+	// a broken correspondence does not end the run: the search goes on with the property's own oracle
+	// (error reported, content unchanged, handle usable) on the implementation alone
+	oracleOnly := false
+	var pending *Replay
+	pendingName := ""
+	defer func() {
+		if pending != nil && c.Violations == 0 {
+			c.Unexplained(pending, pendingName)
+		}
+	}()
 	for _, be := range backends {
 		im := NewImpl(be, c.Scratch)
 		g := NewGen(c.Rng, dm)
@@ -164,6 +183,7 @@ func streamC04(c *Ctx) {
 					ln["fault"] = k
 					er := im.Exec(ln, k, true)
 					send := cloneJ(ln)
+					prepImport(send, ln, im)
 					send["trace"] = 1
 					if len(er.Fresh) > 0 {
 						send["fresh"] = toIfaceStr(er.Fresh)
@@ -206,21 +226,20 @@ func streamC04(c *Ctx) {
 							return
 						}
 					}
-					if !lineEq(er.Line, ans) || er.Fired != mFired {
-						c.Unexplained(&Replay{Backend: be, Stream: "fault", Case: toIfaces(caseLines), Expected: []string{ans, fmt.Sprint("fired=", mFired), kv["trace"]},
-							Actual: []string{er.Line, fmt.Sprint("fired=", er.Fired), strings.Join(er.Trace, " ")}, Note: fmt.Sprintf("fault at call %d: implementation and model disagree", k)},
-							"correspondence K-C04/fault")
-						im.Destroy()
-						return
+					if !oracleOnly && (!lineEq(er.Line, ans) || er.Fired != mFired) {
+						pending = &Replay{Backend: be, Stream: "fault", Case: toIfaces(caseLines), Expected: []string{ans, fmt.Sprint("fired=", mFired), kv["trace"]},
+							Actual: []string{er.Line, fmt.Sprint("fired=", er.Fired), strings.Join(er.Trace, " ")}, Note: fmt.Sprintf("fault at call %d: implementation and model disagree", k)}
+						pendingName = "correspondence K-C04/fault"
+						oracleOnly = true
 					}
 					if !er.Fired {
 						// fault-free run: the traces must agree call by call
 						c.ImplTraces++
-						if strings.Join(er.Trace, " ") != kv["trace"] {
-							c.Unexplained(&Replay{Backend: be, Stream: "fault", Case: toIfaces(caseLines), Expected: []string{kv["trace"]}, Actual: []string{strings.Join(er.Trace, " ")},
-								Note: "fault-free store-call traces differ"}, "correspondence K-C04/trace")
-							im.Destroy()
-							return
+						if !oracleOnly && strings.Join(er.Trace, " ") != kv["trace"] {
+							pending = &Replay{Backend: be, Stream: "fault", Case: toIfaces(caseLines), Expected: []string{kv["trace"]}, Actual: []string{strings.Join(er.Trace, " ")},
+								Note: "fault-free store-call traces differ"}
+							pendingName = "correspondence K-C04/trace"
+							oracleOnly = true
 						}
 						if strings.HasPrefix(er.Line, "err") && im.Dump() != before {
 							c.Violation(&Replay{Backend: be, Stream: "fault", Case: toIfaces(caseLines), Expected: []string{before}, Actual: []string{im.Dump()},
